@@ -48,7 +48,7 @@ func (k Keeper) RequestModuleService(
 		return sdkerrors.Wrap(types.ErrUnknownRequestContext, reqContextID.String())
 	}
 
-	_, totalPrices, _, err := k.FilterServiceProviders(
+	providers, totalPrices, _, err := k.FilterServiceProviders(
 		ctx,
 		requestContext.ServiceName,
 		requestContext.Providers,
@@ -60,11 +60,22 @@ func (k Keeper) RequestModuleService(
 		return err
 	}
 
+	// the request is only issued (and only paid for) if the module service's binding is eligible
+	if len(providers) == 0 {
+		return sdkerrors.Wrapf(types.ErrInvalidModuleService, "service %s is not available", requestContext.ServiceName)
+	}
+
 	if err := k.DeductServiceFees(ctx, consumer, totalPrices); err != nil {
 		return err
 	}
 
-	requestIDs := k.InitiateRequests(ctx, reqContextID, []sdk.AccAddress{moduleService.Provider}, make(map[string][]string))
+	requestIDs := k.InitiateRequests(ctx, reqContextID, providers, make(map[string][]string))
+
+	// the batch has been issued here rather than by the end blocker: schedule its expiration like
+	// the end blocker does and take the context off the new batch queue, so that it is not issued
+	// a second batch and is completed and cleaned up when the batch expires
+	k.AddRequestBatchExpiration(ctx, reqContextID, ctx.BlockHeight()+requestContext.Timeout)
+	k.DeleteNewRequestBatch(ctx, reqContextID, ctx.BlockHeight())
 
 	result, output := moduleService.ReuquestService(ctx, input)
 	request, _, err := k.AddResponse(ctx, requestIDs[0], moduleService.Provider, result, output)
